@@ -86,4 +86,9 @@ LEVELS = {
         "text": "Each run_progress call is observed through protocol events and checked for exactly-once final messages, worker completion and bounded reporter progress under generated chain counts and speed profiles; draws and diagnostics are compared with run() twins across precisions; receiver faults are injected at three points.",
         "note": "Schedules are produced, not enumerated; the guard bound 2n+8 is far above the <= ceil(n/5)+2 iterations the unchanged code needs.",
     },
+    "C06": {
+        "technique": "runtime monitoring: calibrated statistical monitors on run() outputs from stationary starts (replicate-based standard errors, closed-form expectations) and on the hooked random draws",
+        "text": "The only genuinely distributional property: decided by z/t tests with thresholds sized for a ~1e-9 false-alarm rate per statistic over the four samplers, several target families and both precisions, plus direct distribution tests of every random stream the hooks expose. Detects biases above the stated detection limit only.",
+        "note": "Closed-form moments of the harness targets; exact starting draws by Cholesky / inverse CDF from the workload PRNG.",
+    },
 }
